@@ -30,6 +30,28 @@ var (
 	byteT  = types.Typ[types.Uint8]
 )
 
+// Byte sequences ("seq") are passed around as encoded pseudo-terms: either the bytes of
+// a slice in a byte heap ("SEQH|heap|slice") or a plain SMT array ("SEQA|array").
+func seqH(h, sl string) string { return "SEQH|" + h + "|" + sl }
+func seqA(a string) string     { return "SEQA|" + a }
+func seqParts(t string) (heap bool, a, b string) {
+	ps := strings.SplitN(t, "|", 3)
+	if len(ps) >= 3 && ps[0] == "SEQH" {
+		return true, ps[1], ps[2]
+	}
+	if len(ps) >= 2 && ps[0] == "SEQA" {
+		return false, ps[1], ""
+	}
+	return false, t, ""
+}
+func seqAt(t, i string) string {
+	heap, a, b := seqParts(t)
+	if heap {
+		return fmt.Sprintf("(select %s (elem %s %s))", a, b, i)
+	}
+	return fmt.Sprintf("(select %s %s)", a, i)
+}
+
 type evalCtx struct {
 	c     *FnVC
 	pkg   *types.Package
@@ -127,10 +149,8 @@ func (ev *evalCtx) constOf(e ast.Expr) (constant.Value, types.Type, bool) {
 		}
 	case *ast.SelectorExpr:
 		if id, ok := x.X.(*ast.Ident); ok {
-			if p := ev.importNamed(id.Name); p != nil {
-				if o, ok := p.Scope().Lookup(x.Sel.Name).(*types.Const); ok {
-					return o.Val(), constType(o.Type()), true
-				}
+			if o, ok := ev.lookupQualified(id.Name, x.Sel.Name).(*types.Const); ok {
+				return o.Val(), constType(o.Type()), true
 			}
 		}
 	case *ast.UnaryExpr:
@@ -170,19 +190,50 @@ func constType(t types.Type) types.Type {
 	return t
 }
 
-func (ev *evalCtx) importNamed(name string) *types.Package {
-	if ev.pkg == nil {
-		return nil
-	}
-	for _, p := range ev.pkg.Imports() {
+// importsNamed returns the candidate packages a qualifier may denote: imports of the
+// contract's package (by package name or by an alias spelled like the path suffix with
+// '_' for '/'), then any loaded package of that name.
+func (ev *evalCtx) importsNamed(name string) []*types.Package {
+	var out []*types.Package
+	match := func(p *types.Package) bool {
 		if p.Name() == name {
-			return p
+			return true
+		}
+		parts := strings.Split(p.Path(), "/")
+		for i := range parts {
+			if strings.Join(parts[i:], "_") == name {
+				return true
+			}
+		}
+		return false
+	}
+	if ev.pkg != nil {
+		for _, p := range ev.pkg.Imports() {
+			if match(p) {
+				out = append(out, p)
+			}
 		}
 	}
-	// also allow any loaded package by name
 	for _, sp := range ev.c.P.prog.AllPackages() {
-		if sp.Pkg.Name() == name {
-			return sp.Pkg
+		if match(sp.Pkg) {
+			dup := false
+			for _, o := range out {
+				if o == sp.Pkg {
+					dup = true
+				}
+			}
+			if !dup {
+				out = append(out, sp.Pkg)
+			}
+		}
+	}
+	return out
+}
+
+func (ev *evalCtx) lookupQualified(pkgName, name string) types.Object {
+	for _, p := range ev.importsNamed(pkgName) {
+		if o := p.Scope().Lookup(name); o != nil {
+			return o
 		}
 	}
 	return nil
@@ -265,7 +316,20 @@ func (ev *evalCtx) load(t types.Type, loc string) string {
 	saved := ev.c.cur
 	ev.c.cur = ev.heap
 	defer func() { ev.c.cur = saved }()
-	return ev.c.load(t, loc)
+	v := ev.c.load(t, loc)
+	// Go's type-safety invariants hold for every value in a reachable heap. They are
+	// asserted for closed terms only (no quantifier-bound variables).
+	if len(ev.bound) == 0 {
+		switch t.Underlying().(type) {
+		case *types.Slice, *types.Pointer, *types.Map:
+			key := v + "@" + ev.c.hOf(ev.heap, "alloc")
+			if !ev.c.invSeen[key] {
+				ev.c.invSeen[key] = true
+				ev.c.assumeTypeInv(v, t)
+			}
+		}
+	}
+	return v
 }
 
 func (ev *evalCtx) ident(x *ast.Ident) (string, types.Type, error) {
@@ -486,9 +550,9 @@ func (ev *evalCtx) selector(x *ast.SelectorExpr) (string, types.Type, error) {
 	if id, ok := x.X.(*ast.Ident); ok {
 		if _, isVar := ev.env[id.Name]; !isVar {
 			if _, isB := ev.bound[id.Name]; !isB {
-				if p := ev.importNamed(id.Name); p != nil {
-					if o, ok := p.Scope().Lookup(x.Sel.Name).(*types.Var); ok {
-						return ev.globalVar(p, o)
+				if ps := ev.importsNamed(id.Name); len(ps) > 0 {
+					if o, ok := ev.lookupQualified(id.Name, x.Sel.Name).(*types.Var); ok {
+						return ev.globalVar(o.Pkg(), o)
 					}
 					return "", nil, fmt.Errorf("unknown %s.%s", id.Name, x.Sel.Name)
 				}
@@ -684,7 +748,7 @@ func (ev *evalCtx) index(x *ast.IndexExpr) (string, types.Type, error) {
 			return "", nil, err
 		}
 		i = ev.to64(i, it)
-		return fmt.Sprintf("(select %s %s)", a, i), byteT, nil
+		return seqAt(a, i), byteT, nil
 	}
 	return "", nil, fmt.Errorf("cannot index %s of type %s", exprString(x.X), t)
 }
@@ -741,11 +805,14 @@ func (ev *evalCtx) sliceExpr(x *ast.SliceExpr) (string, types.Type, error) {
 			}
 			hi = ev.to64(h, ht)
 		}
-		return fmt.Sprintf("(mkStr (bvsub %s %s) (lambda ((i (_ BitVec 64))) (ite (bvult i (bvsub %s %s)) (select (str_arr %s) (bvadd i %s)) #x00)))", hi, lo, hi, lo, a, lo), t, nil
+		return ev.c.substr(a, lo, hi), t, nil
 	}
 	if t == seqT {
-		// sub-sequence: shift
-		return fmt.Sprintf("(lambda ((i (_ BitVec 64))) (select %s (bvadd i %s)))", a, lo), seqT, nil
+		heap, h, sl := seqParts(a)
+		if !heap {
+			return "", nil, fmt.Errorf("cannot slice a string-backed seq")
+		}
+		return seqH(h, fmt.Sprintf("(mkSlice (s_arr %s) (bvadd (s_off %s) %s) (bvsub (s_len %s) %s) (bvsub (s_cap %s) %s))", sl, sl, lo, sl, lo, sl, lo)), seqT, nil
 	}
 	return "", nil, fmt.Errorf("cannot slice %s", t)
 }
@@ -766,10 +833,8 @@ func (ev *evalCtx) lookupType(e ast.Expr) types.Type {
 		}
 	case *ast.SelectorExpr:
 		if id, ok := x.X.(*ast.Ident); ok {
-			if p := ev.importNamed(id.Name); p != nil {
-				if tn, ok := p.Scope().Lookup(x.Sel.Name).(*types.TypeName); ok {
-					return tn.Type()
-				}
+			if tn, ok := ev.lookupQualified(id.Name, x.Sel.Name).(*types.TypeName); ok {
+				return tn.Type()
 			}
 		}
 	case *ast.StarExpr:
@@ -983,7 +1048,31 @@ func (ev *evalCtx) call(x *ast.CallExpr, want types.Type) (string, types.Type, e
 		}
 		*ev.qn++
 		qv := fmt.Sprintf("q%d_e", *ev.qn)
-		return fmt.Sprintf("(and (= %s %s) (forall ((%s (_ BitVec 64))) (=> (and (bvsle #x0000000000000000 %s) (bvslt %s %s)) (= (select %s %s) (select %s %s)))))", la, lb, qv, qv, qv, la, a, qv, b, qv), boolT, nil
+		if la == "" || lb == "" {
+			return "", nil, fmt.Errorf("eq: sequence of unknown length")
+		}
+		return fmt.Sprintf("(and (= %s %s) (forall ((%s (_ BitVec 64))) (=> (and (bvsle #x0000000000000000 %s) (bvslt %s %s)) (= %s %s))))", la, lb, qv, qv, qv, la, seqAt(a, qv), seqAt(b, qv)), boolT, nil
+	case "sep":
+		// sep(a, b): a and b (pointers or slices) lie in different allocations, or one is nil
+		if err := argc(2); err != nil {
+			return "", nil, err
+		}
+		var bases []string
+		for _, arg := range x.Args {
+			a, t, err := ev.expr(arg, nil)
+			if err != nil {
+				return "", nil, err
+			}
+			switch ev.c.te.sortOf(t) {
+			case "Loc":
+				bases = append(bases, fmt.Sprintf("(base %s)", a))
+			case "Slice":
+				bases = append(bases, fmt.Sprintf("(base (s_arr %s))", a))
+			default:
+				return "", nil, fmt.Errorf("sep of %s", t)
+			}
+		}
+		return fmt.Sprintf("(or (= %s 0) (= %s 0) (not (= %s %s)))", bases[0], bases[1], bases[0], bases[1]), boolT, nil
 	case "wf":
 		if err := argc(1); err != nil {
 			return "", nil, err
@@ -1100,6 +1189,35 @@ func (ev *evalCtx) call(x *ast.CallExpr, want types.Type) (string, types.Type, e
 		}
 		return fmt.Sprintf("(ite (%s %s %s) %s %s)", op, a, b, b, a), ta, nil
 	}
+	// user-defined predicate (macro)
+	var pc *Contract
+	if ev.pkg != nil {
+		pc = ev.c.P.contracts[ev.pkg.Path()+"::pred "+id.Name]
+	}
+	if pc == nil {
+		pc = ev.c.P.contracts["::pred "+id.Name]
+	}
+	if pc != nil && pc.IsPred && pc.PredBody != nil {
+		if len(x.Args) != len(pc.PredParams) {
+			return "", nil, fmt.Errorf("pred %s expects %d arguments", id.Name, len(pc.PredParams))
+		}
+		n := *ev
+		n.env = map[string]envVal{}
+		for i, a := range x.Args {
+			t, ty, err := ev.expr(a, nil)
+			if err != nil {
+				return "", nil, err
+			}
+			n.env[pc.PredParams[i]] = envVal{t, ty}
+		}
+		if ev.old != nil {
+			o := *ev.old
+			o.env = n.env
+			n.old = &o
+		}
+		t, err := n.boolExpr(pc.PredBody.Expr)
+		return t, boolT, err
+	}
 	return "", nil, fmt.Errorf("unknown function %s in contract expression", id.Name)
 }
 
@@ -1110,6 +1228,9 @@ func (ev *evalCtx) asSeq(e ast.Expr) (string, string, error) {
 		return "", "", err
 	}
 	if t == seqT {
+		if heap, _, sl := seqParts(a); heap {
+			return a, fmt.Sprintf("(s_len %s)", sl), nil
+		}
 		return a, "", nil
 	}
 	switch u := t.Underlying().(type) {
@@ -1117,10 +1238,10 @@ func (ev *evalCtx) asSeq(e ast.Expr) (string, string, error) {
 		if ev.c.te.kindOf(u.Elem()) != "bv8" {
 			return "", "", fmt.Errorf("seq of non-byte slice %s", t)
 		}
-		return fmt.Sprintf("(lambda ((si (_ BitVec 64))) (select %s (elem %s si)))", ev.H("bv8"), a), fmt.Sprintf("(s_len %s)", a), nil
+		return seqH(ev.H("bv8"), a), fmt.Sprintf("(s_len %s)", a), nil
 	case *types.Basic:
 		if u.Info()&types.IsString != 0 {
-			return fmt.Sprintf("(str_arr %s)", a), fmt.Sprintf("(str_len %s)", a), nil
+			return seqA(fmt.Sprintf("(str_arr %s)", a)), fmt.Sprintf("(str_len %s)", a), nil
 		}
 	}
 	return "", "", fmt.Errorf("cannot view %s as a byte sequence", t)
@@ -1135,18 +1256,33 @@ func (ev *evalCtx) specCall(name string, args []ast.Expr) (string, types.Type, e
 		return "", nil, fmt.Errorf("spec.%s expects %d arguments", name, len(sf.params))
 	}
 	var ts []string
+	suffix := ""
+	nseq := 0
 	for i, a := range args {
 		pt := sf.params[i]
-		var t string
-		var err error
 		if pt == seqT {
-			t, _, err = ev.asSeq(a)
-		} else {
-			var at types.Type
-			t, at, err = ev.expr(a, pt)
-			if err == nil && ev.c.te.sortOf(at) != ev.c.te.sortOf(pt) {
-				err = fmt.Errorf("argument %d of spec.%s: have %s want %s", i+1, name, at, pt)
+			t, _, err := ev.asSeq(a)
+			if err != nil {
+				return "", nil, err
 			}
+			heap, x, y := seqParts(t)
+			sfx := "_a"
+			if heap {
+				sfx = ""
+				ts = append(ts, x, y)
+			} else {
+				ts = append(ts, x)
+			}
+			if nseq > 0 && sfx != suffix {
+				return "", nil, fmt.Errorf("spec.%s: mixed sequence representations", name)
+			}
+			suffix = sfx
+			nseq++
+			continue
+		}
+		t, at, err := ev.expr(a, pt)
+		if err == nil && ev.c.te.sortOf(at) != ev.c.te.sortOf(pt) {
+			err = fmt.Errorf("argument %d of spec.%s: have %s want %s", i+1, name, at, pt)
 		}
 		if err != nil {
 			return "", nil, err
@@ -1157,7 +1293,7 @@ func (ev *evalCtx) specCall(name string, args []ast.Expr) (string, types.Type, e
 	if len(ts) == 0 {
 		return sf.name, sf.result, nil
 	}
-	return fmt.Sprintf("(%s %s)", sf.name, strings.Join(ts, " ")), sf.result, nil
+	return fmt.Sprintf("(%s%s %s)", sf.name, suffix, strings.Join(ts, " ")), sf.result, nil
 }
 
 func (ev *evalCtx) ghostCall(name string, args []ast.Expr) (string, types.Type, error) {
@@ -1174,6 +1310,38 @@ func (ev *evalCtx) ghostCall(name string, args []ast.Expr) (string, types.Type, 
 	comp := ev.c.te.ghostComp(name, sorts)
 	h := ev.H(comp)
 	return fmt.Sprintf("(%s_get %s %s)", sanitize(comp), h, strings.Join(ts, " ")), boolT, nil
+}
+
+// lemmaExpr: a conjunction of applications of proved lemmas (spec functions declared
+// with ";; lemma"). Nothing else may be assumed through a lemma clause.
+func (ev *evalCtx) lemmaExpr(e ast.Expr) (string, error) {
+	var parts []string
+	for _, cj := range splitConj(e) {
+		call, ok := cj.(*ast.CallExpr)
+		if !ok {
+			return "", fmt.Errorf("lemma clause must apply spec lemmas: %s", exprString(cj))
+		}
+		sel, ok := call.Fun.(*ast.SelectorExpr)
+		id, ok2 := sel, ok
+		_ = id
+		if !ok || !ok2 {
+			return "", fmt.Errorf("lemma clause must apply spec lemmas: %s", exprString(cj))
+		}
+		if x, ok := sel.X.(*ast.Ident); !ok || x.Name != "spec" {
+			return "", fmt.Errorf("lemma clause must apply spec lemmas: %s", exprString(cj))
+		}
+		sf := ev.c.P.specs[sel.Sel.Name]
+		if sf == nil || !sf.isLemma {
+			return "", fmt.Errorf("spec.%s is not a lemma", sel.Sel.Name)
+		}
+		t, _, err := ev.specCall(sel.Sel.Name, call.Args)
+		if err != nil {
+			return "", err
+		}
+		ev.c.lemmasUsed[sel.Sel.Name] = true
+		parts = append(parts, t)
+	}
+	return and(parts...), nil
 }
 
 // ---- modifies sets
